@@ -300,6 +300,10 @@ func opsFor(s sut) []op {
 			out = append(out, op{"off", e, a})
 		}
 		out = append(out, op{"off", e, []int{1, 2, 3}}, op{"off", e, []int{3, 2, 1}})
+		if s.Name() == "api-event" || s.Name() == "ehs" {
+			// handler 0 is a nil func: naming it removes nothing (in particular it is not "no handler named")
+			out = append(out, op{"off", e, []int{0}}, op{"off", e, []int{0, 0}}, op{"off", e, []int{0, 2}})
+		}
 		out = append(out, op{"offallof", e, []int{}}, op{"fire", e, []int{}})
 	}
 	out = append(out, op{"offall", s.Events()[0], []int{}})
